@@ -4,13 +4,13 @@ use crate::support::*;
 use educe::Educe;
 use core::cmp::Ordering;
 #[derive(Educe)]
-#[educe(PartialEq, Ord, Eq)]
-pub enum T { Zed { #[educe(Ord(rank(2)))] b: (), #[educe(Ord(rank = "-3"))] r#type: Option<u8>, f: Option<u8> }, C() }
-impl PartialOrd for T { fn partial_cmp(&self, o: &Self) -> Option<Ordering> { Some(::core::cmp::Ord::cmp(self, o)) } }
-pub fn values() -> Vec<T> { vec![T::Zed { b: (), r#type: None, f: None }, T::Zed { b: (), r#type: None, f: Some(0) }, T::Zed { b: (), r#type: None, f: Some(255) }, T::Zed { b: (), r#type: Some(0), f: None }, T::Zed { b: (), r#type: Some(0), f: Some(0) }, T::Zed { b: (), r#type: Some(0), f: Some(255) }, T::Zed { b: (), r#type: Some(255), f: None }, T::Zed { b: (), r#type: Some(255), f: Some(0) }, T::Zed { b: (), r#type: Some(255), f: Some(255) }, T::C()] }
-pub fn show(x: &T) -> String { #[allow(unused_variables)] match x { T::Zed { b: p0, r#type: p1, f: p2 } => format!("Zed({},{},{})", sv(p0), sv(p1), sv(p2)), T::C() => format!("C()") } }
-pub fn o_disc(x: &T) -> i128 { match x { T::Zed { b: _, r#type: _, f: _ } => 0, T::C() => 1 } }
-pub fn o_cmp(a: &T, b: &T) -> Ordering { match (a, b) { (T::Zed { b: a0, r#type: a1, f: a2 }, T::Zed { b: b0, r#type: b1, f: b2 }) => { let c = ::core::cmp::Ord::cmp(a2, b2); if c != Ordering::Equal { return c; } let c = ::core::cmp::Ord::cmp(a1, b1); if c != Ordering::Equal { return c; } let c = ::core::cmp::Ord::cmp(a0, b0); if c != Ordering::Equal { return c; } Ordering::Equal }, (T::C(), T::C()) => {  Ordering::Equal }, _ => o_disc(a).cmp(&o_disc(b)) } }
+#[educe(PartialEq, Eq, PartialOrd, Ord)]
+pub enum T { C { b: (), r#type: i64 } }
+
+pub fn values() -> Vec<T> { vec![T::C { b: (), r#type: -5 }, T::C { b: (), r#type: 0 }, T::C { b: (), r#type: 9 }] }
+pub fn show(x: &T) -> String { #[allow(unused_variables)] match x { T::C { b: p0, r#type: p1 } => format!("C({},{})", sv(p0), sv(p1)) } }
+pub fn o_disc(x: &T) -> i128 { match x { T::C { b: _, r#type: _ } => 0 } }
+pub fn o_cmp(a: &T, b: &T) -> Ordering { match (a, b) { (T::C { b: a0, r#type: a1 }, T::C { b: b0, r#type: b1 }) => { let c = ::core::cmp::Ord::cmp(a0, b0); if c != Ordering::Equal { return c; } let c = ::core::cmp::Ord::cmp(a1, b1); if c != Ordering::Equal { return c; } Ordering::Equal } } }
 #[repr(C)] pub struct Wrap { pub pre: u8, pub x: T, pub post: [u8; 9] }
 pub fn wrap(i: usize, n: u8) -> Wrap { Wrap { pre: n, x: values().swap_remove(i), post: [n; 9] } }
-pub fn run(out: &mut Out) { let vs = values(); for (i, a) in vs.iter().enumerate() { for (j, b) in vs.iter().enumerate() { let e = o_cmp(a, b); let g = ::core::cmp::Ord::cmp(a, b); out.check(g == e, "ordlayout_27", "cmp", || format!("cmp({}, {}) = {:?} expected {:?}", show(a), show(b), g, e)); for n in [0u8, 1, 0x7f, 0x80, 0xff] { let wa = wrap(i, n); let wb = wrap(j, !n); let g = ::core::cmp::Ord::cmp(&wa.x, &wb.x); let e = o_cmp(a, b); out.check(g == e, "ordlayout_27", "cmp_neighbours", || format!("cmp({}, {}) with neighbour bytes {} = {:?} expected {:?}", show(a), show(b), n, g, e)); } } } }
+pub fn run(out: &mut Out) { let vs = values(); for (i, a) in vs.iter().enumerate() { for (j, b) in vs.iter().enumerate() { let e = o_cmp(a, b); let g = ::core::cmp::Ord::cmp(a, b); out.check(g == e, "ordlayout_27", "cmp", || format!("cmp({}, {}) = {:?} expected {:?}", show(a), show(b), g, e)); let g2 = ::core::cmp::PartialOrd::partial_cmp(a, b); out.check(g2 == Some(e), "ordlayout_27", "partial_is_some_cmp", || format!("partial_cmp({}, {}) = {:?} expected Some({:?})", show(a), show(b), g2, e)); for n in [0u8, 1, 0x7f, 0x80, 0xff] { let wa = wrap(i, n); let wb = wrap(j, !n); let g = ::core::cmp::Ord::cmp(&wa.x, &wb.x); let e = o_cmp(a, b); out.check(g == e, "ordlayout_27", "cmp_neighbours", || format!("cmp({}, {}) with neighbour bytes {} = {:?} expected {:?}", show(a), show(b), n, g, e)); } } } }
